@@ -292,7 +292,25 @@ class _OpenFault:
             n = self.count
             self.count += 1
             if self.plan is not None and self.plan["nth_open"] == n:
-                self.fired.append(os.path.relpath(os.path.abspath(file), self.root))
+                target = os.path.abspath(file)
+                if kw.get("opener") is not None:
+                    # the caller resolves the name itself (e.g. against the repository root): ask its opener which
+                    # file that is, then let it vanish
+                    seen, real_os_open = [], os.open
+
+                    def probe(pth, *a2, **kw2):
+                        seen.append(pth)
+                        raise FileNotFoundError(errno.ENOENT, "probe", pth)
+                    os.open = probe
+                    try:
+                        kw["opener"](file, os.O_RDONLY)
+                    except OSError:
+                        pass
+                    finally:
+                        os.open = real_os_open
+                    if seen and isinstance(seen[0], str):
+                        target = os.path.abspath(seen[0])
+                self.fired.append(os.path.relpath(target, self.root))
                 self.log.ev("fault", kind="vanish", n=n)
                 raise FileNotFoundError(errno.ENOENT, "No such file or directory (injected)", file)
         return _real_io_open(file, *a, **kw)
@@ -420,6 +438,19 @@ class Runner:
         w = self.world
         k = op["op"]
         try:
+            # no dangling links, also in minimised histories: a step that would take away the target of a link is a no-op
+            gone = None
+            if k in ("rm",):
+                gone = op["path"]
+            elif k in ("mv", "git_mv"):
+                gone = op["src"]
+            elif k == "git" and op["argv"][:1] == ["rm"] and "--cached" not in op["argv"]:
+                gone = op["argv"][-1]
+            if gone is not None:
+                links = getattr(self, "links", {})
+                links.pop(gone, None)
+                if gone in links.values():
+                    raise OSError("a link points here")
             if k == "write_nb":
                 p = os.path.join(w.work, op["path"])
                 os.makedirs(os.path.dirname(p), exist_ok=True)
@@ -447,6 +478,7 @@ class Runner:
                 if not os.path.isfile(os.path.join(w.work, op["target"])):
                     raise OSError("target vanished")      # (minimisation dropped it: no dangling links)
                 os.remove(pth)
+                self.links = dict(getattr(self, "links", {}), **{op["path"]: op["target"]})
                 os.symlink(os.path.relpath(os.path.join(w.work, op["target"]), os.path.dirname(pth)), pth)
                 self.stat("ops_symlink")
             elif k == "chmod":
